@@ -137,6 +137,41 @@ macro_rules! family {
 
 use routee_compass_core::model::unit::as_f64::AsF64;
 
+/// the text a `from_str` argument stands for once it is read as the body of a JSON string (what
+/// `string_deserialize` matches against the serde names), `None` when it is no JSON string body
+fn json_body(text: &str) -> Option<String> {
+    serde_json::from_str::<String>(&format!("\"{}\"", text)).ok()
+}
+
+/// a spelling of the name `cs` with JSON escape sequences: character `i` written as `\uXXXX` (either hex
+/// case), or a legal / illegal / truncated escape put in front of it
+fn escaped_spelling(rng: &mut Rng, cs: &[char], i: usize) -> String {
+    let mut out = String::new();
+    for (k, c) in cs.iter().enumerate() {
+        if k == i {
+            match rng.below(4) {
+                0 => out.push_str(&format!("\\u{:04x}", *c as u32)),
+                1 => out.push_str(&format!("\\u{:04X}", *c as u32)),
+                2 => {
+                    out.push_str(*rng.pick(&["\\/", "\\n", "\\\\", "\\\"", "\\u0000", "\\uD83D\\uDE00", "\\ud800", "\\u12", "\\x", "\\U0073", "\\u00e9"]));
+                    out.push(*c);
+                }
+                _ => {
+                    out.push(*c);
+                    if k + 1 == cs.len() {
+                        out.push('\\');
+                    } else {
+                        out.push_str("\\u");
+                    }
+                }
+            }
+        } else {
+            out.push(*c);
+        }
+    }
+    out
+}
+
 pub fn run(ctx: &mut Ctx) -> &'static str {
     let reps = ctx.n(6, 60);
     family!(ctx, "distance", D, Distance, Some(si_d as fn(&DistanceUnit) -> f64), reps);
@@ -339,7 +374,7 @@ pub fn run(ctx: &mut Ctx) -> &'static str {
     {
         let names: Vec<String> = S.iter().map(|u| u.to_string()).collect();
         let mut texts: Vec<String> = names.clone();
-        for t in ["", "kph", "mph", "KilometersPerHour", "kilometers_per_hour ", " miles_per_hour", "meters_per_second\"", "\"", "miles\tper_hour", "meters", "hours", "kilometers per hour", "Miles_Per_Hour", "mètres_par_seconde"] {
+        for t in ["", "kph", "mph", "KilometersPerHour", "kilometers_per_hour ", " miles_per_hour", "meters_per_second\"", "\"", "miles\tper_hour", "meters", "hours", "kilometers per hour", "Miles_Per_Hour", "mètres_par_seconde", "kp\\u0068", "\\u006Dph", "mph\\", "mp\\/h", "mp\\u00", "\\ud83d\\ude00"] {
             texts.push(t.to_string());
         }
         let extra = ctx.n(8, 200);
@@ -352,14 +387,19 @@ pub fn run(ctx: &mut Ctx) -> &'static str {
                 // a name with one character changed, dropped or doubled
                 let mut cs: Vec<char> = names[rng.below(names.len())].chars().collect();
                 let i = rng.below(cs.len());
-                match rng.below(3) {
+                let mut esc: Option<String> = None;
+                match rng.below(6) {
                     0 => cs[i] = *rng.pick(&['a', 'x', '_', 'S', '-', ' ', '1']),
                     1 => {
                         cs.remove(i);
                     }
-                    _ => cs.insert(i, cs[i]),
+                    2 => cs.insert(i, cs[i]),
+                    _ => esc = Some(escaped_spelling(&mut rng, &cs, i)),
                 }
-                cs.into_iter().collect()
+                match esc {
+                    Some(t) => t,
+                    None => cs.into_iter().collect(),
+                }
             };
             let r = std::panic::catch_unwind(|| text.parse::<SpeedUnit>());
             let out = match &r {
@@ -376,13 +416,13 @@ pub fn run(ctx: &mut Ctx) -> &'static str {
             ctx.nontrivial(&format!("sustr {}", text));
             match r {
                 Ok(Ok(su)) => {
-                    // Display and from_str are inverse
-                    if su.to_string() != text {
+                    // Display and from_str are inverse (on the text the argument stands for as a JSON string body)
+                    if Some(su.to_string()) != json_body(&text) {
                         ctx.fail(idx, "speed_unit/from-str-not-display", format!("{:?} parsed as {}", text, su));
                     }
                 }
                 Ok(Err(_)) => {
-                    if names.contains(&text) {
+                    if json_body(&text).map_or(false, |d| names.contains(&d)) {
                         ctx.fail(idx, "speed_unit/from-str-rejects-name", format!("{:?}", text));
                     }
                 }
@@ -395,7 +435,7 @@ pub fn run(ctx: &mut Ctx) -> &'static str {
         ($fam:expr, $ty:ty, $all:expr) => {{
             let names: Vec<String> = $all.iter().map(|u| u.to_string()).collect();
             let mut texts: Vec<String> = names.clone();
-            for t in ["", " ", "Meters", "meters ", " hours", "kwh", "percent\"", "\"", "kilo\twatt_hours", "tons", "KG", "gallons gasoline", "millis", "décimal"] {
+            for t in ["", " ", "Meters", "meters ", " hours", "kwh", "percent\"", "\"", "kilo\twatt_hours", "tons", "KG", "gallons gasoline", "millis", "décimal", "mile\\u0073", "\\u006Deters", "hours\\", "ki\\/lometers", "percen\\u0074", "decima\\u006", "\\ud83d\\ude00"] {
                 texts.push(t.to_string());
             }
             let extra = ctx.n(4, 100);
@@ -407,14 +447,19 @@ pub fn run(ctx: &mut Ctx) -> &'static str {
                 } else {
                     let mut cs: Vec<char> = names[rng.below(names.len())].chars().collect();
                     let i = rng.below(cs.len());
-                    match rng.below(3) {
+                    let mut esc: Option<String> = None;
+                    match rng.below(6) {
                         0 => cs[i] = *rng.pick(&['a', 'x', '_', 'S', '-', ' ', '1']),
                         1 => {
                             cs.remove(i);
                         }
-                        _ => cs.insert(i, cs[i]),
+                        2 => cs.insert(i, cs[i]),
+                        _ => esc = Some(escaped_spelling(&mut rng, &cs, i)),
                     }
-                    cs.into_iter().collect()
+                    match esc {
+                        Some(t) => t,
+                        None => cs.into_iter().collect(),
+                    }
                 };
                 let r = std::panic::catch_unwind(|| text.parse::<$ty>());
                 let out = match &r {
@@ -431,12 +476,12 @@ pub fn run(ctx: &mut Ctx) -> &'static str {
                 ctx.nontrivial(&format!("ustr {} {}", $fam, text));
                 match r {
                     Ok(Ok(u)) => {
-                        if u.to_string() != text {
+                        if Some(u.to_string()) != json_body(&text) {
                             ctx.fail(idx, "unit/from-str-not-display", format!("{:?} parsed as {}", text, u));
                         }
                     }
                     Ok(Err(_)) => {
-                        if names.contains(&text) {
+                        if json_body(&text).map_or(false, |d| names.contains(&d)) {
                             ctx.fail(idx, "unit/from-str-rejects-name", format!("{:?}", text));
                         }
                     }
